@@ -270,6 +270,11 @@ class EncodeState:
             self.emplace_bytes(b'')
             return
 
+        if bit_length > 64 and base_data_type in (DataType.A_INT32, DataType.A_UINT32):
+            odxraise(f"Integers cannot be encoded using {bit_length} bits (at most 64)",
+                     EncodeError)
+            return
+
         format_char = base_data_type.bitstruct_format_letter
         padding = (8 - ((bit_length + self.cursor_bit_position) % 8)) % 8
         odxassert((0 <= padding and padding < 8 and
